@@ -1,17 +1,42 @@
 """C09 — subtype search and irrelevant-type search return only what they promise.
 
-proof side : lean/Heph/Props/C09.lean (findTypes / findTypesNominal / availTypes / irrelevantNominal of
-             Model/Find.lean against SubT / Asg; result checkers subtypesOK / irrelevantOK judged by the
-             declarative decider isSubD, sound for Asg)
-tie to code: every invocation of `_find_types` and `find_irrelevant_type` (nested ones included) is
-             recorded by pass-through wrappers (find_lib.Instrument) on queries over random completed
-             class tables and during real generator + TypeOverwriting runs;
+proof side : lean/Heph/Props/C09.lean (findTypes / findTypesNominal / availTypes / irrelevantNominal /
+             candidateArgs / irrelevantParam of Model/Find.lean against SubT / Asg; result checkers subtypesOK /
+             irrelevantOK judged by the declarative decider isSubD, sound for Asg; candidateArgs_sound,
+             irrelevantParam_neq)
+tie to code: every invocation of `_find_types`, `find_irrelevant_type`, `_find_candidate_type_args` and
+             `get_irrelevant_parameterized_type` (nested ones included) is recorded by pass-through wrappers
+             (find_lib.Instrument);
              EXACT: the set before `to_type` == model `findTypes` given the recorded related
-             instantiation; `available_types` == model `availTypes` given the two recorded lists;
+             instantiation; `available_types` == model `availTypes` given the two recorded lists; the nested
+             `_find_types` calls of `_find_candidate_type_args` (which type, which DIRECTION) == model
+             `candidateCalls` and its candidate list == model `candidateArgs` of the recorded answers; the answer
+             of `get_irrelevant_parameterized_type` == model `irrelevantParam` of the recorded replacements;
              REFINEMENT (the property itself, judged on the implementation's answers): every list
              returned by a top-level search passes `subtypesOK`, every answer of
              `find_irrelevant_type` passes `irrelevantOK` (Lean checkers, decider isSubD), and
-             independently the Python reference decider refsub agrees with each rejection.
+             independently the Python reference decider refsub agrees with each rejection; below the top level:
+             the whole candidate SET of a position must be contained in the query's argument when the nested
+             searches kept their promise (reference decider; no sampling of `random.choice` needed), an
+             irrelevant instantiation must not carry the relevant arguments.
+streams    : witnesses of the recorded findings; STRUCTURED strata over a hand-made table (chain New > Foo > Bar >
+             Baz, one constructor per declared variance, Fn<in A, out R>, Pair, the built-in Function1; Kotlin and
+             Java, thorough: all four languages): every declared variance x every use-site form (none/out/in/star)
+             x both directions x include_self/concrete_only, arguments with proper sub- and supertypes in the
+             table; instantiations nested 2-3 deep under invariant / covariant / contravariant parameters for
+             find_subtypes / find_supertypes / find_irrelevant_type over the minimal type list of the query, that
+             list + 1, and the full table; direct calls of `_find_candidate_type_args` (3 variances x 4 forms x 2
+             directions x ignore_variance) and `get_irrelevant_parameterized_type`; several seeds of
+             `src.utils.random` per query; RANDOM completed class tables (projections made to agree with the
+             declared variance; each parameterized irrelevant query repeated over its minimal type list with
+             further seeds); real generator + TypeOverwriting runs.  The evidence carries the input distribution
+             (`dist_*`, `seeds_per_query`, `irrelevant_distinct_answers_per_query`, `generator_dist_*`).
+history    : two seeded changes (seeded/C09-1: `get_irrelevant_parameterized_type` returns the relevant
+             instantiation; seeded/C09-2: direction flipped twice for a contravariant parameter with an `in`
+             projection) passed the check as of commit 46ea75f: the judges rejected both answers when shown, but
+             the streams held 30 modelled `get_irrelevant_parameterized_type` invocations (none reproducing the old
+             arguments) and 1 query with declaration-site `in` + use-site `in` (no proper subtype of the bound in
+             the table), and the signature `in-to-bare` of a recorded finding would have swallowed the second.
 """
 import common
 from common import canon
@@ -67,6 +92,10 @@ def wb_inst(tb, rng, con, depth, allow_wild, scope=()):
                     a = rng.choice(cands) if (cands and rng.random() < 0.5) else b
                     if allow_wild and rng.random() < 0.15 and kind(a) != "w" and not p.is_contravariant():
                         a = tp.WildCardType(a, tp.Covariant)
+            if kind(a) == "w" and a.bound is not None and export.VAR(p.variance) not in (0, export.VAR(a.variance)):
+                # a projection that contradicts the declared variance is outside the property's domain:
+                # make it agree (declaration-site `in` + use-site `in` / `out` + `out` are the rare shapes)
+                a = tp.WildCardType(a.bound, p.variance)
             m[p] = a
             args.append(a)
         try:
@@ -98,6 +127,9 @@ def query(tb, rng):
     return tb.ground(2, rng.random() < 0.5)
 
 
+FOCUS_SEEDS = 3
+
+
 def synthetic(run, ntables, per_table):
     from src import utils
     import src.ir.type_utils as tu
@@ -109,7 +141,7 @@ def synthetic(run, ntables, per_table):
         tb = gen_types.Table(rng, pbound=0.3)
         boxes = fl.boxes_of(tb.bt)
         frames = []
-        with fl.Instrument() as ins:
+        with fl.Instrument(cap=20000) as ins:
             for _ in range(per_table):
                 k = rng.random()
                 types = type_list(tb, rng, with_vars=k < 0.65)
@@ -126,6 +158,25 @@ def synthetic(run, ntables, per_table):
                                            concrete_only=rng.random() < 0.6)
                     else:
                         tu.find_irrelevant_type(q, types, tb.bt)
+                        if kind(q) == "p":
+                            # the same query over its minimal type list (+ one or two other types), further RNG
+                            # seeds: only over a short list does the search pick the query's own constructor and
+                            # re-draw the nested arguments often enough to be observed
+                            mini = []
+                            for c in _mentioned(q, []):
+                                if kind(c) == "c":
+                                    c = next((d for d in tb.cons + tb.builtin_cons if d == c), c)
+                                mini.append(c)
+                            others = [t for t in types if not any(t == m for m in mini)]
+                            mini += rng.sample(others, min(len(others), rng.randint(0, 2)))
+                            if not any(kind(t) in ("s", "b") for t in mini):
+                                mini.append(rng.choice(tb.boxed_builtins()))    # something to instantiate with
+                            for _s in range(FOCUS_SEEDS):
+                                utils.random.r.seed(rng.randrange(1 << 30))
+                                try:
+                                    tu.find_irrelevant_type(q, list(mini), tb.bt)
+                                except Exception as e:
+                                    exc[type(e).__name__] = exc.get(type(e).__name__, 0) + 1
                 except Exception as e:           # exceptions are recorded in the frames, counted, not judged
                     exc[type(e).__name__] = exc.get(type(e).__name__, 0) + 1
                 for fr in ins.take():
@@ -140,6 +191,208 @@ def synthetic(run, ntables, per_table):
     run.cov["synthetic"] = dict(tot, tables=ntables, top_level_exceptions=exc)
     run.log("stream tables: %d tables, %d frames, %d requests, %d exact differ, %d answers rejected, %d returned types judged; exceptions %s"
             % (ntables, tot["frames"], tot["requests"], tot["exact_diffs"], tot["rejected"], tot["returned_types"], exc))
+    return tot
+
+
+# ---- structured strata -----------------------------------------------------------------------------------
+def chain_table(lang):
+    """a small hand-made class table: the chain New > Foo > Bar > Baz and an unrelated class (so that every
+    argument `Bar` / projection bound `Bar` has proper subtypes AND proper supertypes in the table), one
+    constructor per declared variance (for Java/Groovy all invariant: use-site variance only), a function-like
+    constructor `Fn<in A, out R>`, an invariant `Pair<K, V>`, and the language's built-in Function1"""
+    import src.ir.types as tp
+    bt = gen_types.factory(lang)
+    anyt = bt.get_any_type()
+    decl = lang in ("kotlin", "scala")
+    co, contra = (tp.Covariant, tp.Contravariant) if decl else (tp.Invariant, tp.Invariant)
+    New = tp.SimpleClassifier("New", [anyt])
+    Foo = tp.SimpleClassifier("Foo", [New])
+    Bar = tp.SimpleClassifier("Bar", [Foo])
+    Baz = tp.SimpleClassifier("Baz", [Bar])
+    Unrel = tp.SimpleClassifier("Unrel", [anyt])
+    Inv = tp.TypeConstructor("Inv", [tp.TypeParameter("T")], [anyt])
+    Src = tp.TypeConstructor("Src", [tp.TypeParameter("T", co)], [anyt])
+    Sink = tp.TypeConstructor("Sink", [tp.TypeParameter("T", contra)], [anyt])
+    Fn = tp.TypeConstructor("Fn", [tp.TypeParameter("A", contra), tp.TypeParameter("R", co)], [anyt])
+    Pair = tp.TypeConstructor("Pair", [tp.TypeParameter("K"), tp.TypeParameter("V")], [anyt])
+    F1 = bt.get_function_type(1)
+    return {"lang": lang, "bt": bt, "any": anyt, "decl": decl, "chain": [New, Foo, Bar, Baz], "Unrel": Unrel,
+            "Inv": Inv, "Src": Src, "Sink": Sink, "Fn": Fn, "Pair": Pair, "F1": F1,
+            "classes": [New, Foo, Bar, Baz, Unrel], "cons": [Inv, Src, Sink, Fn, Pair]}
+
+
+def _proj(tp, x, use):
+    if use == "bare":
+        return x
+    if use == "star":
+        return tp.WildCardType()
+    return tp.WildCardType(x, tp.Covariant if use == "out" else tp.Contravariant)
+
+
+def _uses_for(p):
+    """the use-site forms that are well-formed at a parameter of this declared variance"""
+    v = export.VAR(p.variance)
+    return ["bare", "out", "in", "star"] if v == 0 else ["bare", "out", "star"] if v == 1 else ["bare", "in", "star"]
+
+
+def variance_matrix(T):
+    """every declared variance x every use-site form, the argument / bound in the middle of the chain"""
+    import src.ir.types as tp
+    import itertools
+    Bar = T["chain"][2]
+    qs = []
+    for con in (T["Inv"], T["Src"], T["Sink"]):
+        for use in _uses_for(con.type_parameters[0]):
+            qs.append(con.new([_proj(tp, Bar, use)]))
+    for con in (T["Fn"], T["F1"], T["Pair"]):
+        ps = con.type_parameters
+        combos = list(itertools.product(*[[u for u in _uses_for(p) if u != "star"] for p in ps]))
+        for uses in combos:
+            qs.append(con.new([_proj(tp, Bar, u) for u in uses]))
+        qs.append(con.new([tp.WildCardType(), Bar]))
+    return qs
+
+
+def nested_queries(T):
+    """instantiations nested 2-3 deep under invariant / covariant / contravariant parameters, bare and projected"""
+    import src.ir.types as tp
+    New, Foo, Bar, Baz = T["chain"]
+    Inv, Src, Sink, Fn, Pair = T["cons"]
+    out = lambda x: tp.WildCardType(x, tp.Covariant)          # noqa: E731
+    inn = lambda x: tp.WildCardType(x, tp.Contravariant)      # noqa: E731
+    qs = [Inv.new([Inv.new([Foo])]), Inv.new([Src.new([Foo])]), Src.new([Inv.new([Foo])]),
+          Sink.new([Inv.new([Foo])]), Src.new([Src.new([Bar])]), Sink.new([Sink.new([Bar])]),
+          Pair.new([Inv.new([Bar]), Inv.new([Bar])]), Pair.new([Foo, Inv.new([Foo])]),
+          Inv.new([Inv.new([Inv.new([Foo])])]), Src.new([Inv.new([Src.new([Bar])])]),
+          Fn.new([Inv.new([Foo]), Inv.new([Foo])]), Fn.new([Bar, Src.new([Bar])]),
+          Inv.new([out(Inv.new([Bar]))]), Inv.new([inn(Src.new([Bar]))]), Src.new([out(Src.new([out(Bar)]))]),
+          Inv.new([Inv.new([out(Bar)])]), Inv.new([Sink.new([inn(Bar)])])]
+    return qs
+
+
+def _mentioned(t, acc):
+    """the classes and constructors a type mentions (the minimal type list of a query)"""
+    k = kind(t)
+    if k == "p":
+        if not any(c is t.t_constructor or c == t.t_constructor for c in acc):
+            acc.append(t.t_constructor)
+        for a in t.type_args:
+            _mentioned(a, acc)
+    elif k == "w":
+        if t.bound is not None:
+            _mentioned(t.bound, acc)
+    elif k in ("s", "b"):
+        if not any(c == t for c in acc):
+            acc.append(t)
+    return acc
+
+
+def _table_constructor(T, c):
+    """the table's own constructor object for the (copied) constructor of an instantiation"""
+    for d in T["cons"] + [T["F1"]]:
+        if d == c:
+            return d
+    return c
+
+
+def structured(run, langs, find_seeds, irr_seeds):
+    """the structured strata: (1) variance matrix x both directions x flags, several RNG seeds per query;
+    (2) nested instantiations for find_subtypes / find_irrelevant_type, over the minimal type list of the query
+    and over the full table, many RNG seeds per query; (3) direct calls of `_find_candidate_type_args`
+    (every declared variance x use-site form x direction x ignore_variance) and of
+    `get_irrelevant_parameterized_type` (relevant arguments given)"""
+    from src import utils
+    import src.ir.types as tp
+    import src.ir.type_utils as tu
+    rng = run.rng
+    tot = None
+    exc = {}
+    nq = {"find": 0, "irrelevant": 0, "cand": 0, "irrparam": 0}
+    for lang in langs:
+        T = chain_table(lang)
+        bt = T["bt"]
+        boxes = fl.boxes_of(bt)
+        full = T["classes"] + T["cons"] + [T["F1"]] + rng.sample(fl.boxes_of(bt), 2)
+        frames = []
+        distinct = {}
+
+        def call(f, label):
+            try:
+                return f()
+            except Exception as e:
+                exc[type(e).__name__] = exc.get(type(e).__name__, 0) + 1
+
+        with fl.Instrument(cap=100000) as ins:
+            def flush(where):
+                for fr in ins.take():
+                    fr["boxes"] = boxes
+                    fr["where"] = dict(where, lang=lang)
+                    frames.append(fr)
+            # (1) + (2a): the searches
+            for qi, q in enumerate(variance_matrix(T) + nested_queries(T)):
+                for si in range(find_seeds):
+                    seed = rng.randrange(1 << 30)
+                    types = list(full)
+                    rng.shuffle(types)
+                    for direction in ("sub", "super"):
+                        utils.random.r.seed(seed)
+                        nq["find"] += 1
+                        if direction == "sub":
+                            call(lambda: tu.find_subtypes(q, types, include_self=si % 2 == 0, concrete_only=si % 3 != 2),
+                                 "find_subtypes")
+                        else:
+                            call(lambda: tu.find_supertypes(q, types, include_self=si % 2 == 0, concrete_only=si % 3 != 2),
+                                 "find_supertypes")
+                        flush({"stratum": "matrix/nested", "query": export.short(q), "rng_seed": seed})
+            run.tally("seeds_per_query", "find:%d" % find_seeds)
+            # (2b): the irrelevant-type search, minimal and full type lists
+            flat = [T["Inv"].new([T["chain"][2]]), T["Src"].new([T["chain"][2]]), T["Sink"].new([T["chain"][2]]),
+                    T["chain"][2], T["Pair"].new([T["chain"][1], T["chain"][2]]), T["F1"].new([T["chain"][2], T["chain"][1]])]
+            for q in nested_queries(T) + flat:
+                mini = [_table_constructor(T, c) if kind(c) == "c" else c for c in _mentioned(q, [])]
+                for types, n, tag in ((mini, irr_seeds, "minimal"), (mini + [T["Unrel"]], irr_seeds // 2, "minimal+1"),
+                                      (full, irr_seeds // 2, "full")):
+                    seen = set()
+                    for si in range(n):
+                        seed = rng.randrange(1 << 30)
+                        utils.random.r.seed(seed)
+                        nq["irrelevant"] += 1
+                        r = call(lambda: tu.find_irrelevant_type(q, list(types), bt), "find_irrelevant_type")
+                        seen.add(export.short(r))
+                        flush({"stratum": "irrelevant/" + tag, "query": export.short(q), "rng_seed": seed})
+                    run.tally("irrelevant_distinct_answers_per_query", "%d" % len(seen))
+            run.tally("seeds_per_query", "irrelevant:%d/%d/%d" % (irr_seeds, irr_seeds // 2, irr_seeds // 2))
+            # (3a) direct: _find_candidate_type_args, every declared variance x use-site form x direction x ignore
+            Bar = T["chain"][2]
+            for v in (tp.Invariant, tp.Covariant, tp.Contravariant):
+                p = tp.TypeParameter("P", v)
+                for use in ("bare", "out", "in", "star"):
+                    for inner in (Bar, T["Inv"].new([Bar]), T["Src"].new([Bar])):
+                        if use == "star" and inner is not Bar:
+                            continue
+                        base = _proj(tp, inner, use)
+                        for gs in (True, False):
+                            for ign in (False, True):
+                                utils.random.r.seed(rng.randrange(1 << 30))
+                                nq["cand"] += 1
+                                call(lambda: tu._find_candidate_type_args(p, base, list(full), gs, {}, ign), "cand")
+                                flush({"stratum": "direct-cand", "query": "%s / %s" % (export.short(p), export.short(base))})
+            # (3b) direct: get_irrelevant_parameterized_type with the relevant arguments given
+            for con, args in ((T["Inv"], [T["Inv"].new([Bar])]), (T["Inv"], [Bar]), (T["Src"], [Bar]), (T["Sink"], [Bar]),
+                              (T["Pair"], [T["Inv"].new([Bar]), T["Inv"].new([Bar])]), (T["Pair"], [Bar, T["Inv"].new([Bar])]),
+                              (T["Fn"], [Bar, T["Inv"].new([Bar])]), (T["Src"], [T["Src"].new([Bar])])):
+                mini = [_table_constructor(T, c) if kind(c) == "c" else c for c in _mentioned(con.new(args), [])]
+                for si in range(irr_seeds):
+                    utils.random.r.seed(rng.randrange(1 << 30))
+                    nq["irrparam"] += 1
+                    call(lambda: tu.get_irrelevant_parameterized_type(con, list(mini), {con.name: list(args)}, bt), "irrparam")
+                    flush({"stratum": "direct-irrparam", "query": "%s<%s>" % (con.name, ", ".join(export.short(a) for a in args))})
+        st = eval_frames(run, frames, "structured", origin={"stream": "structured"})
+        tot = st if tot is None else {k2: tot[k2] + st[k2] for k2 in st}
+    run.cov["structured"] = dict(tot, languages=list(langs), queries=nq, top_level_exceptions=exc)
+    run.log("stream structured (%s): %s calls, %d frames, %d requests, %d exact differ, %d answers rejected, %d returned types "
+            "judged; exceptions %s" % (",".join(langs), nq, tot["frames"], tot["requests"], tot["exact_diffs"], tot["rejected"],
+                                        tot["returned_types"], exc))
     return tot
 
 
@@ -164,6 +417,9 @@ def witness_tables():
     Node = tp.TypeConstructor("Node", [tp.TypeParameter("Y")], [kt.Any])
     Wrap = tp.SimpleClassifier("Wrap", [kt.Any])
     Leaf = tp.SimpleClassifier("Leaf", [Node.new([Wrap]), kt.Any])
+    NodeIn = tp.TypeConstructor("NodeIn", [tp.TypeParameter("V", tp.Contravariant)], [kt.Any])
+    X3 = tp.TypeParameter("X")
+    TreeC = tp.TypeConstructor("TreeC", [X3], [NodeIn.new([X3])])
     return [
         ("generic_subclass", "irrelevant", bt, Foo, [Foo, Bar, Baz, kt.String],
          lambda r: kind(r) == "p" and r.name == "Bar"),
@@ -179,6 +435,13 @@ def witness_tables():
          lambda rs: any(kind(r) == "p" and r.name == "Qux" and r.type_args[0] == Leaf for r in rs)),
         ("projected_query", "irrelevant", bt, Box.new([tp.WildCardType()]), [Box, Foo, Baz, kt.String],
          lambda r: kind(r) == "p" and r.name == "Box"),
+        ("projected_query_contravariant", "irrelevant", bt,
+         tp.TypeConstructor("Sink", [tp.TypeParameter("T", tp.Contravariant)], [kt.Any]).new([Box.new([tp.WildCardType()])]),
+         [tp.TypeConstructor("Sink", [tp.TypeParameter("T", tp.Contravariant)], [kt.Any]), Box, Foo, Baz],
+         lambda r: kind(r) == "p" and r.name == "Sink" and kind(r.type_args[0]) == "p" and r.type_args[0].name == "Box"
+         and kind(r.type_args[0].type_args[0]) != "w"),
+        ("generic_subclass_contravariant", "irrelevant", bt, TreeC.new([NodeIn.new([Foo])]), [TreeC, NodeIn, Foo, kt.String],
+         lambda r: kind(r) == "p" and r.name == "NodeIn" and kind(r.type_args[0]) == "p" and r.type_args[0].name == "TreeC"),
         ("type_variable_bound_chain", "irrelevant", bt, tp.TypeParameter("Z", bound=tp.TypeParameter("V", bound=kt.Double)),
          [kt.Double, kt.String, Foo], lambda r: r == kt.Double),
         ("nested_contravariant_projection", "subtypes", bt,
@@ -193,10 +456,13 @@ def run_witness(tu, w, seed):
     from src import utils
     name, func, bt, q, types, pred = w
     utils.random.r.seed(seed)
-    if func == "irrelevant":
-        r = tu.find_irrelevant_type(q, types, bt)
-        return r is not None and pred(r)
-    return pred(tu.find_subtypes(q, types, include_self=True, concrete_only=True))
+    try:
+        if func == "irrelevant":
+            r = tu.find_irrelevant_type(q, types, bt)
+            return r is not None and pred(r)
+        return pred(tu.find_subtypes(q, types, include_self=True, concrete_only=True))
+    except IndexError:          # nothing to instantiate a constructor with (short type list): no answer
+        return False
 
 
 def detect_variant():
@@ -296,13 +562,18 @@ def check(run):
     quick = run.tier == "quick"
     import pipeline
     pipeline.setup()
-    run.cov["rule"] = ("every invocation (nested ones included) of _find_types and find_irrelevant_type on queries over random "
+    run.cov["rule"] = ("every invocation (nested ones included) of _find_types, find_irrelevant_type, _find_candidate_type_args "
+                       "and get_irrelevant_parameterized_type on (a) structured strata over a hand-made table: declared "
+                       "variance x use-site form x direction x flags, nested instantiations over minimal / full type lists, "
+                       "direct calls of the two helper functions, several RNG seeds per query; (b) queries over random "
                        "completed class tables (queries: supertypes of classes, classes, instantiations with/without "
                        "projections and type variables, type variables, the top type; type lists: the table's classes and "
                        "constructors, built-ins, sometimes Array and a type variable; find_subtypes / find_supertypes with "
                        "random include_self, bound, concrete_only; find_irrelevant_type) and during generator + "
                        "TypeOverwriting runs; exact: the set before to_type == model findTypes given the recorded related "
-                       "instantiation, available_types == model availTypes; refinement: Lean checkers subtypesOK / "
+                       "instantiation, available_types == model availTypes, nested calls and candidate list of "
+                       "_find_candidate_type_args == model candidateCalls / candidateArgs, get_irrelevant_parameterized_type "
+                       "== model irrelevantParam of the recorded replacements; refinement: Lean checkers subtypesOK / "
                        "irrelevantOK (decider isSubD) on every returned list / answer; non-trivial = non-empty expected set "
                        "or non-empty answer")
     variant, seen = detect_variant()
@@ -318,7 +589,9 @@ def check(run):
         run.assumptions.append("the tree implements the repaired find_irrelevant_type; switch Heph.Find.Variant.current to "
                                ".repaired")
     witnesses(run)
-    synthetic(run, 30 if quick else 320, 40 if quick else 60)
+    structured(run, ("kotlin", "java") if quick else ("kotlin", "java", "scala", "groovy"), 4 if quick else 12,
+               12 if quick else 40)
+    synthetic(run, 22 if quick else 320, 40 if quick else 60)
     generator_stream(run, 12 if quick else 96)
     if not proofs_ok and not run.violations:
         run.violation({"kind": "broken-proof", "obligations": run.broken}, signature="proof", no_input=True)
